@@ -15,10 +15,13 @@ applies=ok; git apply $out/patch.diff || applies=FAILED
 build=ok; go build ./... 2>/dev/null || build=FAILED
 suite=$(go test -vet=off -count=1 ./... 2>&1 | grep -c "^ok")
 suitefail=$(go test -vet=off -count=1 ./... 2>&1 | grep -c "^FAIL\|^--- FAIL")
-cp $out/demo_test.go zz_demo_test.go
-with=$(go test -vet=off -count=1 -run '^TestDemo$' . 2>&1 | grep -c "^--- FAIL\|^FAIL\|panic:")
+sub=.
+grep -q "^package auth" $out/demo_test.go && sub=./auth
+grep -q "^package httpio" $out/demo_test.go && sub=./httpio
+cp $out/demo_test.go $sub/zz_demo_test.go
+with=$(go test -vet=off -count=1 -run '^TestDemo$' $sub 2>&1 | grep -c "^--- FAIL\|^FAIL\|panic:")
 git apply -R $out/patch.diff
-without=$(go test -vet=off -count=1 -run '^TestDemo$' . 2>&1 | grep -c "^ok")
+without=$(go test -vet=off -count=1 -run '^TestDemo$' $sub 2>&1 | grep -c "^ok")
 cd /; git -C /repo worktree remove --force $wt
 echo "[$tag] applies=$applies build=$build suite_ok_pkgs=$suite suite_failures=$suitefail demo_fails_with_change=$with demo_passes_without=$without"
 # run the checks against /repo with the change
